@@ -276,6 +276,32 @@ Proof.
     rewrite <- Hga in Hb. exact (balanced_even _ _ _ _ Hb).
 Qed.
 
+(* JustifyLine completely: for every text and width, the collapsed line itself, or its words
+   interleaved with the gap sizes given by gaps_after - a function of the number of words and
+   of the missing width only (which is C03 for JustifyLine: the gaps do not depend on what
+   the clusters are made of) *)
+Theorem justify_line_explicit text w c :
+  collapse_space text [10] = Ok c ->
+  let words := split c [SP] in
+  let g := zlen words - 1 in
+  justify_line text w =
+    Ok (if (w <=? glen c) || (g <? 1) then c
+        else concat (interleave words (gaps_after (Z.to_nat (w - glen c)) g (repeat 1%nat (length words - 1)) 0 false))).
+Proof.
+  intros Hc words g. unfold justify_line. rewrite Hc. cbn [bind]. fold words. fold g.
+  destruct (w <=? glen c) eqn:Ew; [reflexivity|]. destruct (g <? 1) eqn:Eg; [reflexivity|]. cbn [orb].
+  assert (Hne : words <> []) by (unfold words, split; apply split_aux_nonempty).
+  rewrite intersperse_interleave by exact Hne. unfold gstr in *.
+  set (ones := repeat 1%nat (length words - 1)) in *.
+  assert (Hlo : length ones = (length words - 1)%nat) by (unfold ones; apply repeat_length).
+  assert (Hlw : length words = S (length ones)) by (unfold g, zlen in Eg; lia).
+  assert (Hzg : g = Z.of_nat (length ones)) by (unfold g, zlen; lia).
+  rewrite Hzg.
+  destruct (justify_loop_structure (Z.to_nat (w - glen c)) words ones 0 false Hlw ltac:(lia) ltac:(intros; reflexivity))
+    as (gs' & Hloop & _ & _ & _ & Hga).
+  rewrite Hloop. cbn [bind]. rewrite Hga. reflexivity.
+Qed.
+
 Lemma last_in {A} (l : list A) d : l <> [] -> In (List.last l d) l.
 Proof. induction l as [|x l IH]; [congruence|]. intros _. destruct l as [|y l]; [left; reflexivity|]. right. apply IH. discriminate. Qed.
 
